@@ -159,6 +159,13 @@ class Parser:
             t = self.parse_type()
             self.expect('>')
             return ('option', t)
+        if v == 'Uint' and self.accept('<'):
+            # `Uint<B, L>` of other const parameters: a limb list like `Self`
+            depth = 1
+            while depth:
+                x = self.next()[1]
+                depth += (x == '<') - (x == '>')
+            return 'uint'
         if v == 'Result' and self.accept('<'):
             t = self.parse_type()
             self.expect(',')
@@ -246,6 +253,30 @@ class Parser:
                 # absent with the guard off) are not part of the translated function
                 self.parse_stmt()
             return None
+        if v == 'assert_eq!':
+            # `assert_eq!(a, b);`: panics unless equal
+            self.next()
+            self.expect('(')
+            a = self.parse_expr()
+            self.expect(',')
+            b = self.parse_expr()
+            depth = 1
+            while depth:
+                x = self.next()[1]
+                depth += (x == '(') - (x == ')')
+            self.accept(';')
+            return ('assert', ('bin', '==', a, b))
+        if v == 'assert!':
+            # `assert!(cond[, message…]);`: a failing condition panics
+            self.next()
+            self.expect('(')
+            c = self.parse_expr()
+            depth = 1
+            while depth:
+                x = self.next()[1]
+                depth += (x == '(') - (x == ')')
+            self.accept(';')
+            return ('assert', c)
         if v in ('debug_assert!', 'debug_assert_eq!', 'debug_assert_ne!', 'assume!'):
             self.next()
             self.skip_macro()
@@ -579,6 +610,10 @@ class Parser:
             return self.parse_block()
         if v in ('true', 'false'):
             return ('bool', v == 'true')
+        if v == 'Self' and self.peek()[1] == '{' and self.peek(1)[1] == 'limbs' and self.peek(2)[1] == '}':
+            # `Self { limbs }`: the Uint whose limb array is the variable `limbs`
+            self.next(); self.next(); self.next()
+            return ('uintlit', ('path', ['limbs']))
         if kind == 'id':
             path = [v]
             while self.peek()[1] == '::':
@@ -737,6 +772,11 @@ class Emitter:
             lo_, _ = self.expr(e[2][1], env, 'usize')
             hi_, _ = self.expr(e[2][2], env, 'usize')
             return '((%s.drop %s).take (%s - %s))' % (s_, lo_, hi_, lo_), 'slice'   # `&xs[a..b]` panics unless a ≤ b ≤ len
+        if k == 'uintlit':
+            sx, tx = self.expr(e[1], env)
+            if getattr(self, 'uint_mode', False) is not True:
+                raise TranslateError('Uint struct literal outside limb mode')
+            return sx, 'uint'
         if k == 'getd':
             s_, t_ = self.expr(e[1], env)
             i_, _ = self.expr(e[2], env, 'usize')
@@ -955,6 +995,14 @@ class Emitter:
         if len(path) == 1:
             if name in ('unlikely', 'likely', 'Wrapping'):
                 return self.expr(args[0], env, exp)
+            if name == 'zeroed_uint' and len(args) == 1:
+                # stands for `Uint::<B, L>::ZERO` of another limb count (see the item's `rewrite`)
+                sn, _ = self.expr(args[0], env, 'usize')
+                return '(List.replicate %s 0)' % sn, 'uint'
+            if name == 'zeroed_limbs' and len(args) == 1:
+                # stands for a zero-initialised `&mut [u64]` buffer of the given length (see the item's `rewrite`)
+                sn, _ = self.expr(args[0], env, 'usize')
+                return '(List.replicate %s 0)' % sn, 'mutslice'
             if name == 'Some' and len(args) == 1:
                 inner = exp[1] if isinstance(exp, tuple) and exp[0] == 'option' else None
                 sa, ta = self.expr(args[0], env, inner)
@@ -1004,6 +1052,14 @@ class Emitter:
             # `Self::from(k)` for a literal: the limbs of k (`from` panics when k does not fit; callers use small k)
             return '(Ruint.toLimbs LIMBS %d)' % args[0][1], 'uint'
         if path[0] == 'Self' and getattr(self, 'uint_mode', False) and ('Uint::' + name) in self.fns and args:
+            sig = self.fns['Uint::' + name]
+            if sig[1] and sig[1][0] != 'uint':
+                # an associated function without `self` (`Self::from_limbs(limbs)`)
+                ss = ['BITS', 'LIMBS'] + [self.expr(a, env, self.ty(pt))[0] for a, pt in zip(args, sig[1])]
+                if len(sig) > 3 and sig[3]:
+                    self.uses_fuel = True
+                    ss = ['fuel'] + ss
+                return '(%s %s)' % (sig[0], ' '.join(ss)), sig[2]
             # `Self::method(x, …)`: the method call `x.method(…)`
             return self.mcall(('mcall', args[0], name, args[1:]), env, exp)
         key = '%s::%s' % (path[0] if isinstance(head, tuple) else head, name)
@@ -1032,8 +1088,12 @@ class Emitter:
         consts = sig[4] if len(sig) > 4 else []
         for c in consts:
             # a const generic of the callee is taken to be the caller's parameter of the same name
-            if c not in (getattr(self, 'const_generics', None) or []):
+            if c not in (getattr(self, 'const_generics', None) or []) and not (
+                    getattr(self, 'uint_mode', False) is True and len(consts) == 1):
                 raise TranslateError('cannot infer const generic %s of %s' % (c, ln))
+        if consts and getattr(self, 'uint_mode', False) is True and consts[0] not in (getattr(self, 'const_generics', None) or []):
+            # a `[u64; N]` parameter of the callee receives `self.limbs`: N is LIMBS
+            consts = ['LIMBS']
         ss = list(consts) + ss
         if fuel:
             self.uses_fuel = True
@@ -1236,6 +1296,9 @@ class Emitter:
             return False
         if e[0] == 'mcall' and e[2] in ('expect', 'unwrap'):
             return True
+        if e[0] == 'call' and e[1][0] == 'Self' and len(e[1]) == 2 and getattr(self, 'uint_mode', False) is True:
+            sig = self.fns.get('Uint::' + e[1][1], ())
+            return len(sig) > 7 and bool(sig[7])
         if e[0] == 'call':
             sig = self.fns.get(e[1][-1], ())
             return len(sig) > 7 and bool(sig[7])
@@ -1319,7 +1382,7 @@ class Emitter:
 
     def has_return(self, blk):
         for s in blk[1]:
-            if s[0] in ('return', 'break', 'continue'):
+            if s[0] in ('return', 'break', 'continue', 'assert'):
                 return True
             if s[0] in ('expr', 'expr_nosemi', 'tail') and s[1][0] == 'if':
                 if self.has_return(s[1][2]) or (s[1][3] and self.has_return(s[1][3])):
@@ -1656,6 +1719,12 @@ class Emitter:
                 ne = hoist(s[pos], (k == 'let' and s[1][0] == 'pid') or self.mut_call(s) is not None)
                 if pre:
                     return self.stmts(pre + [s[:pos] + (ne,) + s[pos + 1:]] + rest, env, exp, result)
+        if k == 'assert':
+            if not getattr(self, 'panics', False) or (isinstance(result, tuple) and result[0] == 'loop'):
+                raise TranslateError('assert! inside a loop')
+            sc, _ = self.expr(s[1], env, 'bool')
+            body, tb = self.stmts(rest, env, exp, result)
+            return 'if %s then (\n  %s)\n  else none' % (sc, body), tb
         if k == 'let' and s[1][0] == 'pid' and s[3][0] == 'try':
             # `let x = opt?;` in a function returning `Option`: `None` is returned
             so, to = self.expr(s[3][1], env, None)
@@ -2198,7 +2267,12 @@ class Emitter:
             if isinstance(node, tuple) and node:
                 if node[0] == 'mcall' and node[2] in ('expect', 'unwrap'):
                     return True
+                if node[0] == 'assert':
+                    return True
                 if node[0] == 'call' and len(self.fns.get(node[1][-1], ())) > 7 and self.fns[node[1][-1]][7]:
+                    return True
+                if node[0] == 'call' and node[1][0] == 'Self' and len(node[1]) == 2 \
+                        and len(self.fns.get('Uint::' + node[1][1], ())) > 7 and self.fns['Uint::' + node[1][1]][7]:
                     return True
                 if node[0] == 'mcall' and len(self.fns.get('Uint::' + node[2], ())) > 7 and self.fns['Uint::' + node[2]][7] \
                         and getattr(self, 'uint_mode', False) is True:
@@ -2336,6 +2410,11 @@ def translate(items, namespace='Ruint.Gen', imports=('Ruint.Gen.Prelude',), fns=
                 text = extract_fn(src[src.index(it['after']):], it['fn'])
             else:
                 text = extract_fn(src, it['fn'])
+            for pat_, rep_ in it.get('rewrite', []):
+                # declared source-level rewrites of constructs outside the translated subset (each must match exactly once)
+                if len(re.findall(pat_, text)) != 1:
+                    raise TranslateError('rewrite anchor not found exactly once: %s' % pat_)
+                text = re.sub(pat_, rep_, text)
             fn = Parser(tokenize(text)).parse_fn()
             em = Emitter(fns, it.get('self_ty'), structs=it.get('structs'), gconsts=it.get('gconsts'), self_name=it.get('self_name'))
             em.uint_mode = it.get('uint') or False     # True: limb lists; 'value': a Uint is its numeric value
@@ -2534,6 +2613,26 @@ def uint_div_items(repo):
     return out
 
 
+def uint_mod_items(repo):
+    """more of the `Uint` surface in limb mode: constructors with their assertion, the Montgomery wrappers, `mul_mod` over the
+    generated `addmul` and `div`, `widening_mul`, `next_power_of_two`, `Ord::cmp`"""
+    u = {'self_ty': 'uint', 'uint': True, 'group': 'uintmod', 'externs': UINT_EXTERNS}
+    out = []
+    for f, fn in (('lib.rs', 'from_limbs'), ('lib.rs', 'from_limbs_unmasked'), ('special.rs', 'next_power_of_two'),
+                  ('mul.rs', 'widening_mul'), ('modular.rs', 'mul_mod'), ('modular.rs', 'mul_redc'),
+                  ('modular.rs', 'square_redc'), ('cmp.rs', 'cmp')):
+        d = dict(u, file=repo + '/src/' + f, fn=fn, lean='uint_' + fn, key='Uint::' + fn)
+        if fn == 'mul_mod':
+            # the product buffer `[[0u64; 2]; LIMBS]` viewed through a raw pointer as `product_len` limbs is a zeroed slice
+            d['rewrite'] = [(r'let mut product = \[\[0u64; 2\]; LIMBS\];', ''),
+                            (r'let product = unsafe \{\s*core::slice::from_raw_parts_mut\(product\.as_mut_ptr\(\)\.cast::<u64>\(\), product_len\)\s*\};',
+                             'let product = zeroed_limbs(product_len);')]
+        if fn == 'widening_mul':
+            d['rewrite'] = [(r'Uint::<BITS_RES, LIMBS_RES>::ZERO', 'zeroed_uint(LIMBS_RES)')]
+        out.append(d)
+    return out
+
+
 def radix_items(repo):
     """src/base_convert.rs: digit-sequence conversions (limb mode; errors are (variant index, fields))"""
     f = repo + '/src/base_convert.rs'
@@ -2555,6 +2654,7 @@ GROUPS = [('core', 'Words', ('Ruint.Gen.Prelude',)),
           ('knuth', 'WordsKnuth', ('Ruint.Gen.WordsDivLoops', 'Ruint.Gen.WordsKernels')),
           ('uintdiv', 'WordsUintDiv', ('Ruint.Gen.WordsUint', 'Ruint.Gen.WordsKnuth')),
           ('radix', 'WordsRadix', ('Ruint.Gen.WordsUint',)),
+          ('uintmod', 'WordsUintMod', ('Ruint.Gen.WordsUintDiv', 'Ruint.Gen.WordsRedcLoops')),
           ('value', 'WordsValue', ('Ruint.Gen.Prelude', 'Ruint.Model.Modular'))]
 
 
@@ -2571,6 +2671,7 @@ def translate_all(repo):
     items += knuth_items(repo)
     items += uint_div_items(repo)
     items += radix_items(repo)
+    items += uint_mod_items(repo)
     items += value_items(repo)
     try:
         items += lehmer_items(repo)
